@@ -784,7 +784,9 @@ fn lockstep_case(g: &mut SplitMix64, thorough: bool) {
             b.rng.set_script(vec![]);
             // the probe shares b's rng handle: remember and restore the fallback position
             let saved = b.rng.0.borrow().clone();
-            probe.single_diagonal_step(beta);
+            if let Err(e) = catch(|| probe.single_diagonal_step(beta)) {
+                orc = Err(format!("single_diagonal_step panicked: {}", e));
+            }
             let d = b.rng.0.borrow().log.len();
             *b.rng.0.borrow_mut() = saved;
             d
@@ -854,17 +856,25 @@ fn ising_runs(g: &mut SplitMix64, thorough: bool, ngraphs: usize) {
         let rounds = if thorough { 6 } else { 3 };
         for round in 0..rounds {
             let warm = if round == 0 { g.range(0, 6) } else { g.range(1, 8) };
-            {
+            let diag_last = g.coin();
+            let warmed = {
                 let gr = &mut s.gr;
-                for _ in 0..warm {
-                    gr.timestep(beta);
-                }
-                // leave the string right after a diagonal sweep half of the time
-                if g.coin() {
-                    gr.single_diagonal_step(beta);
-                }
-            }
+                catch(|| {
+                    for _ in 0..warm {
+                        gr.timestep(beta);
+                    }
+                    // leave the string right after a diagonal sweep half of the time
+                    if diag_last {
+                        gr.single_diagonal_step(beta);
+                    }
+                })
+            };
             s.rng.take_log();
+            if let Err(e) = warmed {
+                // e.g. debug_assert!(self.verify()) inside timestep
+                emit(true, &format!("lock warmup-ising,round={}", round), "same", Some(Err(format!("sampler panicked while producing an equilibrium string: {}", e))));
+                break;
+            }
             let inst = ising_inst(&s);
             stat("ising.n_ops", inst.man.get_n());
             // direct trait calls on the extracted string (same closure semantics as qmc_ising.rs)
@@ -916,18 +926,28 @@ fn generic_runs(g: &mut SplitMix64, thorough: bool, nruns: usize) {
         }
         let beta = *g.pick(&[0.25, 0.5, 1.0, 2.0]);
         for round in 0..(if thorough { 5 } else { 3 }) {
-            for _ in 0..g.range(1, 4) {
-                if round % 2 == 0 {
-                    q.diagonal_update(beta);
-                    if q.should_do_loop_update() {
-                        q.loop_update();
+            let reps = g.range(1, 4);
+            let warmed = {
+                let q = &mut q;
+                catch(|| {
+                    for _ in 0..reps {
+                        if round % 2 == 0 {
+                            q.diagonal_update(beta);
+                            if q.should_do_loop_update() {
+                                q.loop_update();
+                            }
+                        } else {
+                            q.timestep(beta);
+                        }
                     }
-                } else {
-                    q.timestep(beta);
-                }
-            }
-            q.diagonal_update(beta);
+                    q.diagonal_update(beta);
+                })
+            };
             rng.take_log();
+            if let Err(e) = warmed {
+                emit(true, &format!("lock warmup-generic,round={}", round), "same", Some(Err(format!("sampler panicked while producing an equilibrium string: {}", e))));
+                break;
+            }
             let inst = Inst {
                 nvars: nv,
                 state: q.clone_state(),
